@@ -17,9 +17,10 @@ Assumed dependency contracts (trusted base; each is listed in the evidence under
     entries (leading, concrete axes);  jnp.full(shape, v, dtype): every element is v;
     jnp.astype(x, dt): same elements, dtype dt;  jnp.result_type(*xs): uninterpreted token of the dtypes of xs;
   * jax.ShapeDtypeStruct(shape, dtype): records shape and dtype as given; `==` compares both;
-  * jax.tree.map / leaves / flatten / unflatten / structure, treedef_is_leaf: pytree semantics with
-    tuple / list / dict (keys sorted) / None / jdc.pytree_dataclass instances (fields in declaration order) as
-    nodes, everything else a leaf; extra trees of tree.map need the first as prefix (else ValueError);
+  * jax.tree.map / leaves / flatten / unflatten / structure: pytree semantics with tuple / list / dict (keys sorted)
+    / None / jdc.pytree_dataclass instances (fields in declaration order) as nodes, everything else a leaf; extra
+    trees of tree.map need the first as prefix (else ValueError); treedef_is_leaf(td): td has exactly one node
+    (checked natively: True for a leaf but also for None and for empty containers);
   * jdc.pytree_dataclass: frozen dataclass: auto __init__ over the annotated non-ClassVar fields, field-wise `==`;
   * jax.eval_shape(f, *s): structure of f applied to arrays of structure s; HASHES f: for a bound method of an
     equinox Module every declared field is read (AttributeError if one is not assigned yet);
@@ -431,8 +432,16 @@ class PromotedV(Value):
         return f'<result_type {self.dtypes}>'
 
     def sym_eq(self, other):
-        return isinstance(other, PromotedV) and len(other.dtypes) == len(self.dtypes) and all(
-            same_token(a, b) for a, b in zip(self.dtypes, other.dtypes))
+        # result_type is symmetric: compare the dtype lists as multisets
+        if not isinstance(other, PromotedV) or len(other.dtypes) != len(self.dtypes):
+            return False
+        rest = list(other.dtypes)
+        for a in self.dtypes:
+            hit = next((i for i, b in enumerate(rest) if same_token(a, b)), None)
+            if hit is None:
+                return False
+            del rest[hit]
+        return True
 
 
 def dtype_of(interp, v):
@@ -518,6 +527,11 @@ def flatten(interp, v, is_leaf=None):
             pos += n
         return rebuild(out)
     return [x for p in parts for x in p[0]], f'{kind}({",".join(p[1] for p in parts)})', rb
+
+
+def one_node(rep):
+    """jax.tree_util.treedef_is_leaf: the treedef has exactly one node (a leaf, None, or an empty container)"""
+    return rep == '*' or rep.endswith('()')
 
 
 def tree_map(interp, f, tree, rest, is_leaf=None):
@@ -732,12 +746,12 @@ def install(T: Theory):
     @T.ext('jax.tree.structure', 'jax.tree_util.tree_structure')
     def _structure(interp, tree, is_leaf=None):
         leaves, rep, rb = flatten(interp, tree, is_leaf)
-        return TreeDefV(rep, rb, len(leaves), rep == '*')
+        return TreeDefV(rep, rb, len(leaves), one_node(rep))
 
     @T.ext('jax.tree.flatten', 'jax.tree_util.tree_flatten')
     def _flatten(interp, tree, is_leaf=None):
         leaves, rep, rb = flatten(interp, tree, is_leaf)
-        return (B.PyList(leaves), TreeDefV(rep, rb, len(leaves), rep == '*'))
+        return (B.PyList(leaves), TreeDefV(rep, rb, len(leaves), one_node(rep)))
 
     @T.ext('jax.tree.unflatten', 'jax.tree_util.tree_unflatten')
     def _unflatten(interp, treedef, leaves):
